@@ -112,8 +112,8 @@ func (fa *FuncAnalysis) MustPassThrough(from ssa.Instruction, to ssa.Instruction
 				return false
 			}
 		}
-		for _, s := range b.Succs {
-			if seen[s] {
+		for si, s := range b.Succs {
+			if seen[s] || fa.edgeDead(b, si) {
 				continue
 			}
 			seen[s] = true
@@ -198,7 +198,9 @@ func isInitStore(fa *FuncAnalysis, st *ssa.Store) bool {
 	for t.Op == "override" {
 		t = t.Args[0]
 	}
-	return t.Op == "zero"
+	// the zero value: an untouched local, or one that was just assigned the zero value as a whole (go/ssa builds
+	// `x = T{..}` for an existing x as `*x = zero` followed by the field stores)
+	return t.Op == "zero" || (t.Op == "const" && t.Name == "nil")
 }
 
 // Complits returns the composite-literal allocations of the named struct type in fn.
@@ -308,8 +310,8 @@ func (fa *FuncAnalysis) EveryIterationPasses(phi *ssa.Phi, via []ssa.Instruction
 				return false
 			}
 		}
-		for _, s := range b.Succs {
-			if !loop[s] {
+		for si, s := range b.Succs {
+			if !loop[s] || fa.edgeDead(b, si) {
 				continue
 			}
 			if s == h {
@@ -341,8 +343,8 @@ func (fa *FuncAnalysis) blockReaches(a, b *ssa.BasicBlock) bool {
 		if x == b {
 			return true
 		}
-		for _, s := range x.Succs {
-			if !seen[s] {
+		for si, s := range x.Succs {
+			if !seen[s] && !fa.edgeDead(x, si) {
 				seen[s] = true
 				if dfs(s) {
 					return true
